@@ -153,9 +153,88 @@ def _linear_sub(root, c, new):
     return "".join(out)
 
 
+WORDS = ["foo bar", "a foo b", "xfoox", "bar", "foo", "ab ba", "Foo", "o", "12 foo 3"]
+
+
+def all_text_nodes(root):
+    """every text node (text and tail) of the subtree in document order, independent of odfdo"""
+    out = []
+
+    def walk(el):
+        if el.text:
+            out.append(el.text)
+        for ch in el:
+            if isinstance(ch.tag, str):
+                walk(ch)
+            if ch.tail:
+                out.append(ch.tail)
+
+    walk(root)
+    return out
+
+
+def run_container(case, ctx):
+    """count / replace on a Table, a Row, a Cell, a List or a body holding them: every text run of the subtree takes part,
+    whichever way the text got there (Cell(value): a text:p; cell.value = ...: text directly in the cell)"""
+    from odfdo import Cell, Document, List, Paragraph, Row, Table
+
+    with ctx.guard(("C16", "container", "build-exception"), case):
+        doc = Document("text")
+        body = doc.body
+        body.clear()
+        body.append(Paragraph(WORDS[case["w"][0] % len(WORDS)]))
+        t = Table("T")
+        k = 0
+        for y in range(2):
+            row = Row()
+            for x in range(3):
+                k += 1
+                w = WORDS[case["w"][k % len(case["w"])] % len(WORDS)]
+                how = case["how"][k % len(case["how"])]
+                if how == 0:
+                    cell = Cell(w)
+                elif how == 1:
+                    cell = Cell()
+                    cell.value = w          # typed setter: the displayed text lands directly in the cell
+                elif how == 2:
+                    cell = Cell()
+                    cell.string = w
+                else:
+                    cell = Cell(k, text=w)  # a number shown as some text
+                row.append_cell(cell)
+            t.append_row(row)
+        body.append(t)
+        body.append(List([WORDS[case["w"][-1] % len(WORDS)], "foo item"]))
+        recv = {"table": lambda: body.get_table(0), "row": lambda: body.get_table(0).get_row(case["y"] % 2, clone=False),
+                "cell": lambda: body.get_table(0).get_row(case["y"] % 2, clone=False).get_cell(case["x"] % 3, clone=False),
+                "body": lambda: body, "list": lambda: body.get_list(position=0)}[case["recv"]]()
+    root0 = odfread.parse_fragment(recv.serialize())
+    nodes = all_text_nodes(root0)
+    pat = ["foo", "o+", "[ab]", "fo", "^foo", "o$", "(?i)foo", r"\bfoo\b", "bar|12"][case["pat"] % 9]
+    c = re.compile(pat)
+    total = sum(len(list(c.finditer(n))) for n in nodes)
+    sig = ("C16", "container-" + case["recv"])
+    with ctx.guard(sig + ("exception",), case):
+        n = recv.replace(pat)
+        ctx.check(n == total, sig + ("count",), f"{case['recv']}.replace({pat!r}) = {n}; the text runs {nodes!r} hold {total} matches", case)
+        if case["mode"] == "replace":
+            new = ["X", "", "<\\g<0>>", "yy"][case["new"] % 4]
+            n2 = recv.replace(pat, new)
+            ctx.check(n2 == total, sig + ("count",), f"{case['recv']}.replace({pat!r}, {new!r}) = {n2}; matches {total}", case)
+            got = all_text_nodes(odfread.parse_fragment(recv.serialize()))
+            want = [x for x in (c.sub(new, n_) for n_ in nodes) if x]
+            ctx.check(got == want, sig + ("nodes",), f"{case['recv']}.replace({pat!r}, {new!r}): text runs {nodes!r} became {got!r}, re.sub gives {want!r}", case)
+    if total and any(h in (1, 2) for h in case["how"]):
+        ctx.nontrivial(case)
+    ctx.count("container:" + case["recv"])
+
+
 def replay(case, ctx):
     try:
-        run_case(case, ctx)
+        if "recv" in case:
+            run_container(case, ctx)
+        else:
+            run_case(case, ctx)
     except Abandon:
         pass
 
@@ -180,6 +259,23 @@ def run_shard(ctx):
         return t
 
     ctx.run_given(mk, ctx.budget(40000, 1200000))
+
+    def mkc():
+        cases = st.fixed_dictionaries({"recv": st.sampled_from(["table", "row", "cell", "body", "list"]), "w": st.lists(st.integers(0, 8), min_size=3, max_size=7),
+                                       "how": st.lists(st.integers(0, 3), min_size=2, max_size=6), "x": st.integers(0, 2), "y": st.integers(0, 1),
+                                       "pat": st.integers(0, 8), "mode": st.sampled_from(["count", "replace"]), "new": st.integers(0, 3)})
+
+        @given(cases)
+        def t(case):
+            ctx.ev()
+            try:
+                run_container(case, ctx)
+                ctx.maybe_sample(case, 997)
+            except Abandon:
+                pass
+        return t
+
+    ctx.run_given(mkc, ctx.budget(6000, 150000), salt=2)
     if ctx.thorough:
         from lib.fuzz import run_campaign
 
